@@ -108,7 +108,7 @@ pub fn check_long(c: &LCase, ctx: &mut Ctx, id: &str) -> Result<(), Failure> {
                 let f = e1.next(DD::from(x));
                 let s = e2.next(DD::from(x));
                 if !s.is_zero() {
-                    let ppo = f.sub(s).mul_f(100.0).div(s);
+                    let ppo = f.sub(s).div(s).mul_f(100.0);
                     cmax = cmax.max(f.to_f64().abs().max(s.to_f64().abs()) / s.to_f64().abs());
                     let sig = e3.next(ppo);
                     let tl = tau(t) * cmax * 100.0;
